@@ -30,15 +30,6 @@ Definition ik (op k d : Z) := mkInst F_SOPK op (-1) (-1) (-1) d k 0.
     the handler was left as it is *)
 Lemma c_abs_i32 : refuted CDNA3 F_SOP1 48 false.    (* SCC = (S0 < 0) instead of (D != 0) *)
 Proof. refute (wst [(0, 5)] 0 0 0) (i1 48 0 2). Qed.
-(** negative inline constants arrive as 64-bit values (uint64(int64(-k))) and
-    some 32-bit handlers use all 64 bits *)
-Lemma g_lshr_b32_wide : refuted GCN3 F_SOP2 30 true. (* s_lshr_b32 s2, -1, 1 *)
-Proof. refute (wst [] 0 0 0) (i2 30 193 129 2). Qed.
-Lemma c_min_u32_wide : refuted CDNA3 F_SOP2 7 true.  (* s_min_u32 s2, -5, s1 with s1 = 0xffffffff *)
-Proof. refute (wst [(1, 4294967295)] 0 0 0) (i2 7 197 1 2). Qed.
-Lemma c_mul_hi_wide : refuted CDNA3 F_SOP2 44 true.  (* s_mul_hi_u32 s2, -1, s1 *)
-Proof. refute (wst [(1, 2)] 0 0 0) (i2 44 193 1 2). Qed.
-
 (** VCCZ / EXECZ as source operands panic ("Register type not supported") *)
 Definition operand_refuted (a : arch) (s0 d : Z) : Prop :=
   exists st, wf st /\ ~ agree a st (i1 0 s0 d).
